@@ -156,18 +156,29 @@ def asset_inputs() -> Dict[str, List[Dict[str, Any]]]:
     return out
 
 
-def subsets_worker(chunk: List[Tuple[str, Tuple[str, ...]]]) -> List[Tuple[str, Tuple[str, ...], Dict[str, Any]]]:
+# from-dates of the subset runs: none; one that hides part of every asset's 2021 events; one that hides ALL 2021 events of B1 and B3 but
+# not of B2 (their 2021 summary lines stay, without a visible detail row to point at)
+SUBSET_FROMS = (None, "2021-03-04", "2021-03-05")
+
+
+def subsets_worker(chunk: List[Tuple[Any, ...]]) -> List[Tuple[str, Tuple[str, ...], Dict[str, Any]]]:
     """Runs (method, subset) cases through the generator seam; returns per-asset dumps and sheets (compared in the parent)."""
     from rp2verif import frdriver as D
     from rp2verif.seams import generator as G
 
     inputs = asset_inputs()
     out = []
-    for method, subset in chunk:
+    from datetime import date as _date
+
+    for task in chunk:
+        method, subset = task[0], task[1]
+        fd = _date.fromisoformat(task[2]) if len(task) > 2 and task[2] else None
+        if fd is not None:
+            method = f"{method} -f {fd}"
         assets, sheets = {}, {}
         for a in subset:
             sheets[a], assets[a] = D.to_sheet(inputs[a], a)
-        case = {"assets": assets, "sheets": sheets, "schedule": [(1970, method)], "from": None, "to": None, "country": "us", "lang": "en",
+        case = {"assets": assets, "sheets": sheets, "schedule": [(1970, method.split(" ")[0])], "from": fd, "to": None, "country": "us", "lang": "en",
                 "reports": ["rp2_full_report", "tax_report_us", "open_positions"], "allow_negative": True}
         res = G.run(case)
         per_asset: Dict[str, Any] = {"error": res["error"]}
@@ -282,7 +293,7 @@ def main(tier: str, budget_s: Optional[float] = None) -> int:
     seeds, order_cov = pick_seeds()
     if tier == "quick":
         seeds_used = seeds + [s for s in range(40) if s not in seeds][:6]
-        seed_shapes = ["all_types", "multi", "same_instant"]
+        seed_shapes = ["all_types", "multi", "same_instant", "transfers"]
     else:
         seeds_used = seeds + [s for s in range(40) if s not in seeds][:16]
         seed_shapes = ["all_types", "multi", "transfers", "same_instant"]
@@ -355,7 +366,7 @@ def main(tier: str, budget_s: Optional[float] = None) -> int:
     t1 = time.time()
     methods = ("fifo", "lifo", "hifo", "lofo")
     all_assets = ("B1", "B2", "B3")
-    sub_tasks = [(m, tuple(s)) for m in methods for n in (1, 2, 3) for s in itertools.combinations(all_assets, n)]
+    sub_tasks = [(m, tuple(s), f) for m in methods for f in SUBSET_FROMS for n in (1, 2, 3) for s in itertools.combinations(all_assets, n)]
     from rp2verif.props import c13
 
     chunks = [[t] for t in sub_tasks]
@@ -390,8 +401,8 @@ def main(tier: str, budget_s: Optional[float] = None) -> int:
                     total.violation({"kind": "subset", "method": method, "subset": list(subset), "asset": a, "signature": f"C17 asset results depend on the other assets / {key}",
                                      "what": f"{method}: asset {a} processed with {subset} differs from {a} processed alone in its {key} {detail[:200]}"})
                     break
-    total.sample({"part": "b", "subsets": [list(s) for _m, s in sub_tasks[:7]], "methods": list(methods)}, cap=14)
-    phases.append({"phase": "(b) every subset of 3 assets x 4 methods (generator seam)", "tasks": len(chunks), "done": done2, "wall_s": round(time.time() - t1, 1)})
+    total.sample({"part": "b", "subsets": [list(t[1]) for t in sub_tasks[:7]], "methods": list(methods), "from_dates": list(SUBSET_FROMS)}, cap=14)
+    phases.append({"phase": "(b) every subset of 3 assets x 4 methods x from-date none / 2021-03-04 / 2021-03-05 (generator seam)", "tasks": len(chunks), "done": done2, "wall_s": round(time.time() - t1, 1)})
 
     # (a) row / table orders
     t1 = time.time()
@@ -453,7 +464,8 @@ def replay(path: str) -> int:
         from rp2verif.props import c13
 
         with ctx.Pool(1, initializer=c13.init) as pool:
-            res = pool.apply(subsets_worker, ([(p["method"], tuple(p["subset"])), (p["method"], (p["asset"],))],))
+            m, _, f = p["method"].partition(" -f ")
+            res = pool.apply(subsets_worker, ([(m, tuple(p["subset"]), f or None), (m, (p["asset"],), f or None)],))
         together, alone = res[0][2], res[1][2]
         a = p["asset"]
         bad = any(together[a][k] != alone[a][k] for k in ("dump", "in_out", "tax", "summary_lines", "tax_report_rows"))
